@@ -29,10 +29,11 @@ func (t *WeightedMerkleTrie) GetPath(keys [][]byte) ([]byte, error) {
 		}
 	}
 
-	if len(keys) > 10 {
+	// the per-branch parallel collection only applies to a branch root, any other root is walked sequentially
+	if node, ok := t.root.(*routingNode); ok && len(keys) > 10 {
 		eg, _ := errgroup.WithContext(context.TODO())
 		eg.SetLimit(5)
-		if node, ok := t.root.(*routingNode); ok {
+		{
 			node.toCollect = true
 			var branchMu = [16]sync.Mutex{}
 			for i := 0; i < len(keys); i++ {
